@@ -37,6 +37,22 @@ The program space is a union of complete products (all enumerated completely, se
               kind x every signature shape with <= WN parameters (WN+1 for the TOP
               combinations) x return annotation x typechecker.  Reference = the undecorated
               wrapper object; the wrapper's own body carries a second recorder;
+     wider  : carriers whose REAL parameter list is wider than the signature they report (and
+              jaxtyped keeps): functools.wraps wrapper with an extra keyword of its own, the same
+              through an explicit __signature__ (no __wrapped__), a callable instance with an extra
+              keyword, a functools.wraps wrapper that injects the first positional argument itself.
+              Called with exactly the lists the real callable accepts and the reported signature
+              does NOT bind (well-typed, and ill-typed at each annotated parameter): the statement
+              demands the ordinary TypeError and no execution of the wrapped body;
+  S  written: HOW THE ANNOTATIONS ARE WRITTEN: form {N, Optional[N], Union[int, N], tuple[N, N],
+              list[N]} x quoting {real objects, the name N quoted inside the form (whole-string for
+              the bare form), `from __future__ import annotations` in the defining module, the
+              future import AND inner quotes} x the scope the name N resolves from {module globals,
+              an enclosing function's locals (closure), the class body (method)} x {def, async def}
+              x signature shapes of family A with <= SN parameters x return annotation x
+              typechecker.  (The generated `def`s of the other families are compiled with this
+              module's `annotations` future inherited: their annotations are whole strings
+              resolved from module globals; lambdas carry real objects.)
   I  in-flight: TWO calls in flight at the same time on one thread: callable kinds
               {coroutine function, generator function, def} pairwise (the same decorated
               function twice, or two functions), bodies with k suspension points
@@ -46,6 +62,8 @@ The program space is a union of complete products (all enumerated completely, se
               of endings {return, raise, close() while suspended}.  Reference = the same
               schedule on the undecorated functions, compared step by step.
 
+  S quick:  SN = 1 in full, and the 2-parameter shapes (all annotated, return annotation, def,
+            globals, the two inner-quoted quotings, lite call lists); thorough: SN = 2 in full.
   quick:    N = 3, NN = 2, WN = 1, k = 1; the 2-name tuples are "lite": all annotated only, ONE
             ill-typed list (wrong rank at the last parameter), raising body mode
             on the first binding recipe only.
@@ -59,6 +77,7 @@ import functools
 import inspect
 import itertools
 import json
+import re
 
 from .. import common
 from ..common import Result, Violation
@@ -95,7 +114,14 @@ TCS = ("typeguard", "beartype")
 W_CARRIERS = ("wraps", "wraps-method", "instance", "partial", "partial-pos", "boundmethod")
 W_KINDS = ("def", "async", "gen", "lambda_ann")
 W_PRE = ("raw", "jt-same", "jt-other", "jt-none")
-W_TOP = (("wraps", "def"), ("wraps", "async"))
+W_TOP = (("wraps", "def"), ("wraps", "async"), ("wraps-xkw", "def"), ("wraps-inject", "def"))
+# carriers whose real parameter list is WIDER than the signature they report
+W_WIDE = ("wraps-xkw", "sig-xkw", "instance-xkw", "wraps-inject")
+# family S: how the annotations are written
+S_FORMS = ("bare", "opt", "union", "tuple", "list")
+S_QUOTES = ("obj", "inner", "future", "future+inner")
+S_SCOPES = ("globals", "closure", "class")
+S_KINDS = ("def", "async")
 # family I: two calls in flight; (kind of call A, kind of call B, same decorated function?)
 I_PAIRS = (
     ("async", "async", 1),
@@ -148,8 +174,8 @@ def resolve_names(fname, own=True):
 
 def bounds(tier):
     if tier == "quick":
-        return dict(N=3, NN=2, WN=1, IK=(1,), IDESC=("plain",))
-    return dict(N=4, NN=3, WN=2, IK=(1, 2), IDESC=("plain", "method"))
+        return dict(N=3, NN=2, WN=1, SN=1, IK=(1,), IDESC=("plain",))
+    return dict(N=4, NN=3, WN=2, SN=2, IK=(1, 2), IDESC=("plain", "method"))
 
 
 def wrap_ok(carrier, pre, ck, ret, params):
@@ -161,13 +187,34 @@ def wrap_ok(carrier, pre, ck, ret, params):
     # coroutine object whose awaited value the return annotation describes.  Such calls used to
     # raise TypeCheckError (second decoration of an async function); repaired by /repo commit
     # be3a882, and part of the space since.)
-    if carrier == "partial-pos" and not (params and params[0][0] in ("PO", "PK")):
+    if carrier in ("partial-pos", "wraps-inject") and not (params and params[0][0] in ("PO", "PK")):
         return False
     if pre == "jt-none" and ck == "gen":
         # jaxtyped(typechecker=None) on a generator function makes the (process-wide, cached)
         # annotation class transparent - known finding of C12; it would poison this worker
         return False
     return True
+
+
+def ann_class(form, quote):
+    """How an annotation of family S reaches jaxtyped: as objects; as ONE string per annotation;
+    as a subscripted object with a string / forward reference nested inside; as one string that
+    itself contains a quoted name (the future import plus inner quotes)."""
+    if quote == "obj":
+        return "objects"
+    if quote == "future" or (quote == "inner" and form == "bare"):
+        return "whole-string"
+    if quote == "inner":
+        return "nested-forward-ref"
+    return "string-with-nested-string"
+
+
+def ann_excluded(form, quote, scope, tc):
+    """beartype x a forward reference nested in a subscripted OBJECT x a name that lives in a
+    closure / class body: beartype ALONE (no jaxtyping) raises BeartypeCallHintForwardRefException
+    on every call of such a function (measured), i.e. the typechecker itself cannot evaluate the
+    annotation - 'arguments satisfy the annotations' is undefined, the statement is silent."""
+    return tc == "beartype" and scope != "globals" and ann_class(form, quote) == "nested-forward-ref"
 
 
 def iter_programs(tier):
@@ -229,7 +276,7 @@ def iter_programs(tier):
             for an in itertools.product((0, 1), repeat=n):
                 params = tuple(zip(ks, CANON[:n], ds, an))
                 for ret in (0, 1):
-                    for carrier in W_CARRIERS:
+                    for carrier in W_CARRIERS + W_WIDE:
                         for ck in W_KINDS:
                             if not full and (carrier, ck) not in W_TOP:
                                 continue
@@ -238,6 +285,31 @@ def iter_programs(tier):
                                     continue
                                 for tc in TCS:
                                     yield ("wrap", carrier, pre, ck, ret, tc, params, 0 if full else 1)
+    # ---- S: how the annotations are written
+    SN = b["SN"]
+    for n in range(SN + 1):
+        for ks, ds in pats[n]:
+            for an in itertools.product((0, 1), repeat=n):
+                params = tuple(zip(ks, CANON[:n], ds, an))
+                for ret in (0, 1):
+                    if not (any(an) or ret):
+                        continue  # no annotation at all: nothing is written
+                    for form in S_FORMS:
+                        for quote in S_QUOTES:
+                            for scope in S_SCOPES:
+                                for ck in S_KINDS:
+                                    for tc in TCS:
+                                        if ann_excluded(form, quote, scope, tc):
+                                            continue
+                                        yield ("ann", form, quote, scope, ck, tc, ret, params, 0)
+    if tier == "quick":
+        # representative slice of the next size: every 2-parameter shape, all annotated
+        for ks, ds in pats[SN + 1]:
+            params = tuple(zip(ks, CANON[: SN + 1], ds, (1,) * (SN + 1)))
+            for form in S_FORMS:
+                for quote in ("inner", "future+inner"):
+                    for tc in TCS:
+                        yield ("ann", form, quote, "globals", "def", tc, 1, params, 1)
     # ---- I: two calls in flight
     for tc in TCS:
         for ka, kb, shared in I_PAIRS:
@@ -414,11 +486,11 @@ class _Rec:
         return self.res
 
 
-def params_source(params, first=None):
+def params_source(params, first=None, ann="_A_"):
     pieces = [first] if first else []
     star = False
     for i, (k, name, d, a) in enumerate(params):
-        s = name + (": _A_" if a else "") + (f" = _D{i}_" if d else "")
+        s = name + (f": {ann}" if a else "") + (f" = _D{i}_" if d else "")
         if k == "VP":
             s, star = "*" + s, True
         elif k == "VK":
@@ -440,6 +512,14 @@ _W_HOW = {
     "partial-pos": "W = functools.partial(inner, <well-typed array>)",
     "boundmethod": "C.m = inner; W = C().m  # the bound-method object",
 }
+_W_HOW.update(
+    {
+        "wraps-xkw": "W = functools.wraps(inner)(<[async] def w(*args, verbose=False, **kwargs): _O_(args, kwargs); return [await] inner(*args, **kwargs)>)  # accepts verbose=..., reports the signature of inner",
+        "sig-xkw": "<[async] def W(*args, verbose=False, **kwargs): _O_(args, kwargs); return [await] inner(*args, **kwargs)>; W.__signature__ = inspect.signature(inner, eval_str=True)  # no __wrapped__",
+        "instance-xkw": "W = <instance with __call__(self, *args, verbose=False, **kwargs): _O_(args, kwargs); return inner(*args, **kwargs)>; functools.update_wrapper(W, inner)",
+        "wraps-inject": "W = functools.wraps(inner)(<[async] def w(*args, **kwargs): _O_(args, kwargs); return [await] inner(<well-typed array>, *args, **kwargs)>)  # supplies the first argument itself, reports the signature of inner",
+    }
+)
 _W_PRE = {"raw": "{f}", "jt-same": "jaxtyped(typechecker={tc})({f})", "jt-other": "jaxtyped(typechecker={other})({f})", "jt-none": "jaxtyped(typechecker=None)({f})"}
 
 
@@ -463,7 +543,34 @@ def ilv_source(fname, ck, desc, ret, params, k):
     return src
 
 
+def ann_text(form, quote, name="_N_"):
+    q = f"'{name}'" if quote in ("inner", "future+inner") else name
+    return {"bare": q, "opt": f"Optional[{q}]", "union": f"Union[int, {q}]", "tuple": f"tuple[{q}, {q}]", "list": f"list[{q}]"}[form]
+
+
+def ann_source(spec, name="_N_"):
+    """Family S.  `name` is the identifier the annotations refer to (made unique per program
+    instance by the harness: typing caches `Optional['N']` objects and a ForwardRef keeps its
+    first evaluation, which would leak from one program into the next)."""
+    _, form, quote, scope, ck, tc, ret, params, _ = spec
+    t = ann_text(form, quote, name)
+    head = "async def" if ck == "async" else "def"
+    first = "self" if scope == "class" else None
+    body = [f"{head} f({params_source(params, first, ann=t)}){' -> ' + t if ret else ''}:", "    'the doc'", "    return _R_(locals())"]
+    lines = ["from __future__ import annotations"] if quote.startswith("future") else []
+    lines.append("from typing import Optional, Union")
+    if scope == "globals":
+        lines += [f"{name} = _A_"] + body
+    elif scope == "closure":
+        lines += ["def _outer_():", f"    {name} = _A_"] + ["    " + x for x in body] + ["    return f", "f = _outer_()"]
+    else:
+        lines += ["class C:", f"    {name} = _A_"] + ["    " + x for x in body]
+    return "\n".join(lines) + "\n"
+
+
 def program_source(spec):
+    if spec[0] == "ann":
+        return ann_source(spec)
     if spec[0] == "wrap":
         _, carrier, pre, ck, ret, tc, params = spec[:7]
         idesc = "method" if carrier in ("wraps-method", "boundmethod") else "plain"
@@ -568,6 +675,63 @@ class _Program:
         return getattr(holder, self.attr if which == "orig" else "_dec_")
 
 
+_ANN_UID = itertools.count()
+_UID_RE = re.compile(r"_N\d+_")
+
+
+class _AnnProgram(_Program):
+    """Family S: one generated callable whose annotations are WRITTEN in a given way (form x
+    quoting) and refer to a name that resolves from a given scope.  Values follow the form: an
+    array, a pair of arrays (tuple[N, N]) or a one-element list (list[N])."""
+
+    def __init__(self, env, spec):
+        self.env = env
+        self.spec = spec
+        _, self.form, self.quote, self.scope, self.ck, self.tc, self.ret, self.params, lite = spec
+        self.lite = bool(lite)
+        self.family = "fn"
+        self.fname = self.attr = "f"
+        self.desc = "method" if self.scope == "class" else "plain"
+        # the name is resolvable at run time iff it is an object already or lives in the module globals
+        self.unresolvable = not (self.quote == "obj" or self.scope == "globals")
+        self.rec = _Rec(lambda shape: self.good())
+        self.src = program_source(spec)
+        scope = {"__name__": "c07gen", "_A_": env.A, "_R_": self.rec}
+        for i, p in enumerate(self.params):
+            if p[2]:
+                scope[f"_D{i}_"] = self.good()
+        real = ann_source(spec, name=f"_N{next(_ANN_UID)}_")
+        try:
+            exec(compile(real, "<c07gen>", "exec", 0, True), scope)  # dont_inherit: no future flags of this module
+        except Exception as e:  # noqa: BLE001
+            raise common.HarnessError(f"generated program does not compile: {e!r}\n{real}")
+        if self.desc == "plain":
+            self.cls = self.inst = None
+            self.raw = scope["f"]
+        else:
+            self.cls = scope["C"]
+            self.inst = self.cls()
+            self.raw = self.cls.__dict__["f"]
+        written = "future" if self.quote.startswith("future") else "plain"
+        for v in self.raw.__annotations__.values():
+            if isinstance(v, str) != (written == "future" or (self.quote == "inner" and self.form == "bare")):
+                raise common.HarnessError(f"annotations are not written as intended: {self.raw.__annotations__!r}\n{real}")
+        self.dec = None
+
+    def _shape(self, leaf):
+        if self.form == "tuple":
+            return (self.env.good(), leaf)
+        if self.form == "list":
+            return [leaf]
+        return leaf
+
+    def good(self):
+        return self._shape(self.env.good())
+
+    def bad(self, how):
+        return self._shape(self.env.bad(how))
+
+
 class _CallableInstance:
     """A callable object that wraps `fn` the way class-based decorators do."""
 
@@ -577,6 +741,14 @@ class _CallableInstance:
         self._rec_ = rec
 
     def __call__(self, *args, **kwargs):
+        self._rec_.outer.append((args, kwargs))
+        return self._fn_(*args, **kwargs)
+
+
+class _CallableInstanceXkw(_CallableInstance):
+    """... and that consumes a keyword of its own."""
+
+    def __call__(self, *args, verbose=False, **kwargs):
         self._rec_.outer.append((args, kwargs))
         return self._fn_(*args, **kwargs)
 
@@ -602,7 +774,8 @@ class _WrapProgram:
         self.params = inner_params[1:] if self.carrier == "partial-pos" else inner_params
         self.src = program_source(spec)
         self.attr = "_w_"
-        self.has_outer = self.carrier in ("wraps", "wraps-method", "instance")
+        self.has_outer = self.carrier in ("wraps", "wraps-method", "instance") + W_WIDE
+        self.wide = self.carrier in W_WIDE
         self.pre_error = None
         self.raw = None
         self.dec = None
@@ -634,6 +807,47 @@ class _WrapProgram:
             self.raw = w
             if c == "wraps-method":
                 setattr(self.cls, "_w_", w)
+        elif c in ("wraps-xkw", "sig-xkw"):
+            if self.ck == "async":
+
+                async def w(*args, verbose=False, **kwargs):
+                    rec.outer.append((args, kwargs))
+                    return await inner(*args, **kwargs)
+
+            else:
+
+                def w(*args, verbose=False, **kwargs):
+                    rec.outer.append((args, kwargs))
+                    return inner(*args, **kwargs)
+
+            if c == "sig-xkw":
+                # an explicit signature (annotations as objects), no __wrapped__
+                try:
+                    w.__signature__ = inspect.signature(inner, eval_str=True)
+                except Exception as e:  # noqa: BLE001
+                    raise common.HarnessError(f"inspect.signature(inner, eval_str=True) failed: {e!r}\n{self.src}")
+                self.raw = w
+            else:
+                self.raw = functools.wraps(inner)(w)
+        elif c == "wraps-inject":
+            first = env.good()
+            if self.ck == "async":
+
+                @functools.wraps(inner)
+                async def w(*args, **kwargs):
+                    rec.outer.append((args, kwargs))
+                    return await inner(first, *args, **kwargs)
+
+            else:
+
+                @functools.wraps(inner)
+                def w(*args, **kwargs):
+                    rec.outer.append((args, kwargs))
+                    return inner(first, *args, **kwargs)
+
+            self.raw = w
+        elif c == "instance-xkw":
+            self.raw = _CallableInstanceXkw(inner, rec)
         elif c == "instance":
             self.raw = _CallableInstance(inner, rec)
         elif c == "partial":
@@ -784,6 +998,8 @@ class _IlvProgram:
 
 
 def make_program(env, spec):
+    if spec[0] == "ann":
+        return _AnnProgram(env, spec)
     if spec[0] == "wrap":
         return _WrapProgram(env, spec)
     if spec[0] == "ilv":
@@ -798,12 +1014,13 @@ def build_call(env, prog, recipe, extra=None, bad=None):
     """-> (args, kwargs) with fresh sentinel arrays, following the recipe."""
     args, kwargs = [], {}
     bad = bad or {}
+    mk_good, mk_bad = getattr(prog, "good", env.good), getattr(prog, "bad", env.bad)  # family S: values follow the annotation form
     for i, (tok, p) in enumerate(zip(recipe, prog.params)):
         k, name = p[0], p[1]
         how = bad.get(i) or bad.get(str(i))
 
         def val(last=True):
-            return env.bad(how) if (how and last) else env.good()
+            return mk_bad(how) if (how and last) else mk_good()
 
         if tok == "pos":
             args.append(val())
@@ -839,6 +1056,27 @@ def build_call(env, prog, recipe, extra=None, bad=None):
     # keyword arguments are written in reverse declaration order at the call site
     kwargs = dict(reversed(list(kwargs.items())))
     return args, kwargs
+
+
+def wide_call(env, prog, bad=None):
+    """Family W, wider carriers: the argument list that the REAL callable accepts beyond the
+    signature it reports (the canonical list plus the wrapper's own keyword / minus the
+    argument the wrapper supplies itself)."""
+    rc = list(canonical_recipe(prog.params, extras_for_annotated=bool(bad)))
+    if prog.carrier == "wraps-inject":
+        rc[0] = "omit"
+    args, kwargs = build_call(env, prog, rc, bad=bad)
+    if prog.carrier != "wraps-inject":
+        kwargs["verbose"] = True
+    return args, kwargs
+
+
+def reported_binds(fn, args, kwargs):
+    try:
+        inspect.signature(fn).bind(*args, **kwargs)
+    except TypeError:
+        return False
+    return True
 
 
 def run_call(prog, fn, args, kwargs):
@@ -903,7 +1141,8 @@ def same_locals(prog, lo, ld):
 
 
 def _exc_text(e):
-    return f"{type(e).__name__}: {str(e)[:160]!r}"
+    # (family S: the per-instance unique name is shown under its source name)
+    return f"{type(e).__name__}: {_UID_RE.sub('_N_', str(e))[:160]!r}"
 
 
 def check_case(env, prog, case):
@@ -997,10 +1236,39 @@ def check_case(env, prog, case):
         if type(rd[2]) is not TypeError:
             return (f"nonbinding-raised-{type(rd[2]).__name__}", f"{case['label']}: {_exc_text(rd[2])}")
         return None
+    if kind == "wide":
+        bad = case.get("bad") or None
+        args, kwargs = wide_call(env, prog, bad)
+        if reported_binds(f_o, args, kwargs):
+            raise common.HarnessError(f"the reported signature binds the 'wider' list\n{prog.src}\n{case}")
+        if not bad:
+            # harness sanity: the real callable does accept this list
+            rec.start("ret")
+            ro = run_call(prog, f_o, args, dict(kwargs))
+            if not (ro[1] == "ret" and len(rec.calls) == 1 and len(rec.outer) == 1 and result_is(prog, ro[2], rec.res)):
+                if soft_ref:
+                    case["_skipped"] = True
+                    return None
+                raise common.HarnessError(f"the carrier does not accept the 'wider' list: {ro!r}\n{prog.src}\n{case}")
+        rec.start("ret")
+        rd = run_call(prog, f_d, args, dict(kwargs))
+        if rec.calls:
+            return ("nonbinding-body-ran", f"{case['label']}: the list does not bind to the signature the decorated callable reports, yet the wrapped body ran {len(rec.calls)}x")
+        if rd[1] != "exc":
+            return ("nonbinding-no-exception", f"{case['label']}: the list does not bind to the signature the decorated callable reports, yet the call returned")
+        if type(rd[2]) is not TypeError:
+            return (f"nonbinding-raised-{type(rd[2]).__name__}", f"{case['label']}: {_exc_text(rd[2])}")
+        return None
     if kind == "ill":
         args, kwargs = build_call(env, prog, recipe, bad=case["bad"])
         rec.start("ret")
         rd = run_call(prog, f_d, args, dict(kwargs))
+        if getattr(prog, "unresolvable", False):
+            # don't-care: the annotation is a string / forward reference to a name that lives in a
+            # closure or class body - nobody can evaluate it at run time, so "the arguments violate
+            # the annotations" is not decidable (the repository's own test says the same)
+            case["_exc"] = "dontcare_unresolvable_" + ("accepted" if rd[1] != "exc" else type(rd[2]).__name__)
+            return None
         if rec.calls:
             return ("illtyped-body-ran", f"{case['label']}: body executions {len(rec.calls)}")
         if rec.outer:
@@ -1267,6 +1535,20 @@ def program_cases(prog):
             yield dict(kind="ill", op="set", label="rank@setter")
         return
     params = prog.params
+    if getattr(prog, "wide", False):
+        # a carrier whose real parameter list is wider than the reported signature: one ordinary
+        # call (pass-through carriers), then the lists only the real callable accepts
+        access = prog.accesses()[0]
+        if prog.carrier != "wraps-inject":
+            yield dict(kind="bind", access=access, recipe=list(canonical_recipe(params)), mode="ret")
+        label = "injected-first-argument-omitted" if prog.carrier == "wraps-inject" else "wrapper's-own-keyword"
+        if not reported_binds(prog.raw, *wide_call(prog.env, prog)):
+            yield dict(kind="wide", access=access, recipe=[], label=label)
+            ann = [i for i, q in enumerate(params) if q[3] and not (i == 0 and prog.carrier == "wraps-inject")]
+            for i in ann[-1:] if prog.lite else ann:
+                if not reported_binds(prog.raw, *wide_call(prog.env, prog, {i: "rank"})):
+                    yield dict(kind="wide", access=access, recipe=[], label=f"{label}+rank@{i}", bad={str(i): "rank"})
+        return
     bind = binding_recipes(params)
     nonbind = nonbinding_recipes(params)
     ill = illtyped_recipes(params)
@@ -1317,6 +1599,8 @@ def ck_label(prog_or_spec):
         return "property"
     if spec[0] == "wrap":
         return _CK_LABEL[spec[3]]
+    if spec[0] == "ann":
+        return _CK_LABEL[spec[4]]
     return _CK_LABEL[spec[2]]
 
 
@@ -1331,6 +1615,8 @@ def make_key(spec, symptom):
         return "C07:async-def:return-annotation-checked-against-coroutine"
     if symptom == "posonly-name-reused-in-kwargs:bind-TypeError":
         return "C07:posonly-name-reused-in-kwargs:bind-TypeError"
+    if spec[0] == "ann":
+        return f"C07:annotations:{ann_class(spec[1], spec[2])}:{spec[3]}:{symptom}"
     if spec[0] == "ilv":
         return f"C07:in-flight:{_CK_LABEL[spec[2]]}+{_CK_LABEL[spec[3]]}:{symptom}"
     if spec[0] == "wrap":
@@ -1342,7 +1628,7 @@ def make_key(spec, symptom):
 def is_nontrivial(spec, case):
     if case["kind"] in ("nonbind", "ill", "ilv"):
         return True
-    if spec[0] in ("prop", "wrap", "ilv"):
+    if spec[0] in ("prop", "wrap", "ilv", "ann"):
         return True
     _, fname, ck, desc, ret, tc, params = spec[:7]
     if case["kind"] == "static":
@@ -1420,7 +1706,7 @@ def eval_program(env, spec, stats, on_violation, samples=None):
 def _run_shard(job):
     env = _Env()
     tier, shard, nshards = job["tier"], job["shard"], job["nshards"]
-    stats = dict(programs=0, evaluations=0, nontrivial=0, decoration_failures=0, cases_static=0, cases_bind=0, cases_nonbind=0, cases_ill=0, cases_ilv=0, wrapped_reference_skipped=0, partial_objects_rejected_at_decoration=0, space_total=0)
+    stats = dict(programs=0, evaluations=0, nontrivial=0, decoration_failures=0, cases_static=0, cases_bind=0, cases_nonbind=0, cases_ill=0, cases_ilv=0, cases_wide=0, wrapped_reference_skipped=0, partial_objects_rejected_at_decoration=0, space_total=0)
     per_key = {}
     kept = []
     samples = []
@@ -1447,6 +1733,8 @@ def _run_shard(job):
             f = "prop"
         elif spec[0] == "wrap":
             f = f"wrapped:{spec[1]}/{spec[3]}/n{len(spec[6])}"
+        elif spec[0] == "ann":
+            f = f"written:{ann_class(spec[1], spec[2])}/{spec[3]}/n{len(spec[7])}"
         elif spec[0] == "ilv":
             f = f"in-flight:{spec[2]}+{spec[3]}{'/same-function' if spec[4] else ''}/{spec[5]}/k{spec[8]}"
         else:
@@ -1733,7 +2021,7 @@ def run(ctx):
         viols.append(Violation(key=v["key"], what=v["what"] + f"\n  ({per_key[v['key']]} instance(s) of this key in the run)", replay=v["replay"]))
     allsamples = [s for o in outs for s in o["samples"]]
     samples = [s for s in allsamples if s["family"] == "fn"][:3]
-    for fam in ("prop", "wrap", "ilv"):
+    for fam in ("prop", "wrap", "ann", "ilv"):
         samples += [s for s in allsamples if s["family"] == fam][:1]
     x_n, x_viols = extra_part()
     xk = set()
@@ -1762,9 +2050,11 @@ def run(ctx):
         cases_nonbinding=stats["cases_nonbind"],
         cases_illtyped=stats["cases_ill"],
         cases_in_flight_schedules=stats["cases_ilv"],
+        cases_wider_than_reported_signature=stats["cases_wide"],
         wrapped_reference_skipped=stats["wrapped_reference_skipped"],
         partial_objects_rejected_at_decoration=stats["partial_objects_rejected_at_decoration"],
-        illtyped_exception_types={k[len("illtyped_exc_"):]: v for k, v in stats.items() if k.startswith("illtyped_exc_")},
+        illtyped_exception_types={k[len("illtyped_exc_"):]: v for k, v in stats.items() if k.startswith("illtyped_exc_") and not k.startswith("illtyped_exc_dontcare_")},
+        illtyped_unresolvable_annotation_dontcare={k[len("illtyped_exc_dontcare_unresolvable_"):]: v for k, v in stats.items() if k.startswith("illtyped_exc_dontcare_unresolvable_")},
         program_families=dict(sorted(families.items())),
         violation_instances=dict(sorted(per_key.items())),
         bounds=f"A: all signature shapes (5 kinds in legal order x default x annotation) with <= {b['N']} parameters, canonical names {CANON}, x return "
@@ -1777,7 +2067,20 @@ def run(ctx):
         "method, callable instance after functools.update_wrapper, functools.partial with nothing / the first positional bound, bound-method object) x inner "
         f"function {W_PRE} (raw / already jaxtyped with the same typechecker object / the other typechecker / typechecker=None) x kinds {W_KINDS} x all "
         f"signature shapes with <= {b['WN']} parameters (x annotation pattern x return annotation x 2 typecheckers), and the shapes with {b['WN'] + 1} parameters "
-        f"for {list(W_TOP)} (lite call lists); excluded: with a return annotation, carriers that hand out a coroutine without being a coroutine function (callable instance around a coroutine function; bound-method / partial object of an ALREADY jaxtyped coroutine function), and typechecker=None around a generator function; "
+        f"for {list(W_TOP)} (lite call lists); carriers whose REAL parameter list is wider than the signature they report {W_WIDE} (functools.wraps wrapper with "
+        "a keyword of its own, the same through an explicit __signature__ without __wrapped__, callable instance with a keyword of its own, functools.wraps wrapper "
+        "that supplies the first positional argument itself): static comparison, one ordinary call, and the lists that only the real callable accepts (canonical "
+        "list + the wrapper's keyword / - the injected argument), well-typed and with a wrong rank at each annotated parameter, whenever the reported signature "
+        "does not bind them - required: TypeError, wrapped body not run; excluded: with a return annotation, carriers that hand out a coroutine without being a coroutine function (callable instance around a coroutine function; bound-method / partial object of an ALREADY jaxtyped coroutine function), and typechecker=None around a generator function; "
+        f"S: how the annotations are written: forms {S_FORMS} (N, Optional[N], Union[int, N], tuple[N, N], list[N]; values are an array / a pair of arrays / a "
+        f"one-element list) x quoting {S_QUOTES} (real objects / the name quoted inside the form = whole string for the bare form / from __future__ import "
+        f"annotations in the defining source / the future import and inner quotes) x scope the name resolves from {S_SCOPES} (module globals / enclosing "
+        f"function's locals / class body, the callable being a method) x kinds {S_KINDS} x all signature shapes with <= {b['SN']} parameters x every annotation "
+        "pattern x return annotation (at least one annotation) x 2 typecheckers, full call catalogue"
+        + (f"; plus every {b['SN'] + 1}-parameter shape, all annotated with return annotation, def, globals, quotings ('inner', 'future+inner'), lite call lists" if ctx.quick else "")
+        + " - a representative sub-product of family A (canonical names, <= 2 parameters, def / async def only); excluded: beartype x forward reference nested in a "
+        "subscripted object x closure / class scope (beartype alone cannot evaluate it); the referenced name is unique per program instance (typing caches "
+        "Optional['N'] objects and a ForwardRef keeps its first evaluation); "
         f"I: two calls in flight on one thread, kind pairs (call A, call B, same decorated function) {list(I_PAIRS)} x descriptor {list(b['IDESC'])} x the 8 "
         f"one-parameter shapes x annotated/not x return annotation x k in {list(b['IK'])} suspension points per body x 2 typecheckers; call A binds axis a=2, "
         "call B a=3; per program EVERY interleaving of (call, k+1 resumptions) of A with those of B (20 for k=1, 70 for k=2; 3 / 4 against a def) x endings "
@@ -1799,6 +2102,9 @@ def run(ctx):
             "typeguard.typechecked (2.x) and beartype.beartype as installed in /venv are the two typecheckers",
             "family W: the wrapper object handed to jaxtyped is the reference; where the wrapped function is itself jaxtyped the reference contains code under test: cases on which "
             "that reference misbehaves are skipped and counted (wrapped_reference_skipped) - the inner decoration of the same shape is judged by family A",
+            "family S: the generated module is exec'd under the name 'c07gen' and is not registered in sys.modules (names resolve through the function's own globals only); "
+            "jaxtyped is applied after the enclosing function / class body has finished (jaxtyping hands generated stubs to the typechecker, so decoration-time frame inspection cannot see the scope either way)",
+            "family S: the annotation forms are evaluated by typing.get_type_hints / the typechecker exactly as written; well-typed values are built per form (array, (array, array), [array])",
             "family I: coroutines / generators are driven by hand with next() on one thread, which is exactly what an event loop does between two awaits; a body only runs inside a step of its own call",
         ],
         notes=[
@@ -1808,6 +2114,13 @@ def run(ctx):
             "don't-care (observed, not asserted): decorating the jaxtyped wrapper of a coroutine function that has a return annotation a second time (directly, or its bound-method object) makes every call raise TypeCheckError - "
             "the first wrapper is no coroutine function for inspect.iscoroutinefunction, so the second one checks the coroutine object against the annotation; the statement speaks of coroutine functions only",
             "don't-care: attributes the undecorated callable does not have (a partial object has no __name__); for a non-binding call through a wrapper whether the wrapper's own body ran (only TypeError and 'wrapped body not run' are required)",
+            "don't-care (family S): the outcome of ILL-typed calls when the annotation is a string / contains a forward reference to a name that lives in a closure or class body - "
+            "no one can evaluate it at run time (the repository's test_local_stringified_annotation: 'we can't usually resolve local type annotations at runtime. Best we can "
+            "hope for is not to raise a spurious error'); counted in illtyped_unresolvable_annotation_dontcare. WELL-typed calls of the same programs are judged in full",
+            "don't-care (family S): beartype x forward reference nested in a subscripted object x closure/class scope is not enumerated: beartype alone raises BeartypeCallHintForwardRefException "
+            "on every call of such a function, so whether arguments satisfy the annotation is undefined for that typechecker (typeguard alone handles it; with typeguard the programs are judged)",
+            "wider carriers: a list that the real callable accepts but that does not bind to inspect.signature(decorated) must raise TypeError without running the wrapped body "
+            "('a call that does not bind to the signature raises the ordinary TypeError'); whether the wrapper's own body ran is don't-care as for every non-binding call through a wrapper",
             "don't-care: for coroutine functions any awaitable (for generator functions any iterable) may be handed back as long as driving it executes the body once and yields the body's result object",
         ],
     )
